@@ -415,6 +415,31 @@ def builder_representations(cx):
         cx.check("build_dense == sum of Kronecker products", base, t_dense, nontrivial=nt)
 
         # a real dtype is requested only when no term can carry a complex coefficient or operator
+        def t_terms(Hc=Hc, ref=ref, reg_of=reg_of, n=n, pauli=pauli):
+            H = Hc()
+            tl = H.terms
+            allowed = set(MATS) - {"I"}
+            if pauli:
+                allowed = {"x", "z", ZX if pauli == "zx" else "y"}
+            for c, ops in tl:
+                rs = [reg_of[s] for _, s in ops]
+                if rs != sorted(set(rs)):
+                    return f"processed term {ops}: registers {rs} not strictly increasing (one operator per site, sorted)"
+                bad = [o for o, _ in ops if o not in allowed]
+                if bad:
+                    return f"processed term {ops}: operators {bad} not allowed (pauli_decompose={pauli})"
+                if not abs(c) > 0:
+                    return f"processed term {ops} with zero coefficient"
+            if len({ops for _, ops in tl}) != len(tl) or H.nterms != len(tl):
+                return "processed terms: repeated operator string / nterms mismatch"
+            if H.locality != max([len(ops) for _, ops in tl] + [0]):
+                return f"locality {H.locality}"
+            return close(ref_matrix([(c, list(ops)) for c, ops in tl], reg_of, n, jw=False), ref,
+                         "sum over the processed term list (H.terms)")
+
+        cx.check("processed term list (H.terms): canonical form and same operator as the input terms", base, t_terms,
+                 nontrivial=nt)
+
         dts = ["complex128", "complex64"] + ([] if tmc else ["float64", "float32"])
         dt = dts[i % len(dts)]
 
@@ -1427,7 +1452,8 @@ def model_builders(cx):
 
             def getH(edges=edges, jarg=jarg, barg=barg, order_arg=order_arg, nodes=nodes, use_hs=use_hs):
                 if use_hs:
-                    return qop.heisenberg_from_edges(edges, j=jarg, b=barg, hilbert_space=HilbertSpace(nodes, order=order_arg))
+                    hs = HilbertSpace.from_edges(edges, order=order_arg) if len(edges) % 2 else HilbertSpace(nodes, order=order_arg)
+                    return qop.heisenberg_from_edges(edges, j=jarg, b=barg, hilbert_space=hs)
                 return qop.heisenberg_from_edges(edges, j=jarg, b=barg, order=order_arg)
 
             secs = []
@@ -2027,9 +2053,9 @@ def spin_chains(cx):
             cx.check("ham_hubbard_hardcore == -t sum (b+ b + h.c.) + V sum n n - mu sum n", p, t_hc)
 
         else:  # bilinear-biquadratic
-            theta = float(np.round(rng.uniform(-3, 3), 3))
+            theta = 0.0 if rng.integers(0, 5) == 0 else float(np.round(rng.uniform(-3, 3), 3))
             compress = bool(rng.integers(0, 2))
-            p = dict(p0, S=S, compress=compress)
+            p = dict(p0, S=S, compress=compress, biquadratic=bool(math.sin(theta) != 0.0))
 
             def t_bb(L=L, S=S, cyclic=cyclic, theta=theta, compress=compress, D=D):
                 sm = spin_mats(S)
@@ -2037,14 +2063,84 @@ def spin_chains(cx):
                 for q in range(L if cyclic else L - 1):
                     r = (q + 1) % L
                     SS = sum(chain_embed({q: sm[d], r: sm[d]}, L, D) for d in "XYZ")
-                    # quimb's documented model: cos(theta) S.S + sin(theta) (sum_a S^a_i S^a_i)(sum_b S^b_j S^b_j)
-                    Q = sum(chain_embed({q: sm[d] @ sm[d], r: sm[e] @ sm[e]}, L, D) for d in "XYZ" for e in "XYZ")
-                    R += math.cos(theta) * SS + math.sin(theta) * Q
+                    R += math.cos(theta) * SS + math.sin(theta) * (SS @ SS)
                 m = qtb.MPO_ham_bilinear_biquadratic(L, theta, S=S, cyclic=cyclic, compress=compress)
-                e = close(m.to_dense(), R, "MPO_ham_bilinear_biquadratic", tol=1e-8)
-                if e or (cyclic and L < 3):
-                    return e
+                return close(m.to_dense(), R, "MPO_ham_bilinear_biquadratic", tol=1e-8)
+
+            cx.check("MPO_ham_bilinear_biquadratic == sum cos(theta) S.S + sin(theta) (S.S)^2", p, t_bb)
+
+            def t_bb2(L=L, S=S, cyclic=cyclic, theta=theta, compress=compress, D=D):
+                m = qtb.MPO_ham_bilinear_biquadratic(L, theta, S=S, cyclic=cyclic, compress=compress)
                 lh = qtb.ham_1d_bilinear_biquadratic(L, theta, S=S, cyclic=cyclic)
                 return close(local_ham_sum(lh, L, D), m.to_dense(), "ham_1d_bilinear_biquadratic vs MPO", tol=1e-8)
 
-            cx.check("MPO_ham_bilinear_biquadratic == ham_1d_bilinear_biquadratic (same model, same parameters)", p, t_bb)
+            if not (cyclic and L < 3):
+                cx.check("ham_1d_bilinear_biquadratic (sum of embedded pair terms) == MPO_ham_bilinear_biquadratic", p, t_bb2)
+
+
+# ----------------------------------------------------------------------------------------------
+# driver 6: the greedy state machine behind build_mpo on dense term sets (shared prefixes / suffixes / coefficients)
+# ----------------------------------------------------------------------------------------------
+
+@driver("C19", "mpo-state-machine", chunks=4, timeout=200,
+        bound="5..30 operator strings on 2..7 sites (thorough: ..40 strings, ..8 sites) drawn so that many share prefixes, "
+              "suffixes and coefficients (coefficients from {1,-1,0.5,2,c}), Pauli / spin / fermionic alphabets, with and "
+              "without Jordan-Wigner: build_mpo().to_dense() and build_dense() vs explicit Kronecker sums; bond dimension "
+              "never exceeds the number of terms + 2")
+def mpo_state_machine(cx):
+    from quimb.operator import HilbertSpace, SparseOperatorBuilder
+
+    rng = cx.rng
+    ncases = 60 if cx.quick else 500
+    for i in range(ncases * cx.nchunks):
+        if not cx.mine():
+            continue
+        if cx.out_of_time():
+            cx.inconclusive.append("mpo-state-machine: time budget exhausted")
+            return
+        n = int(rng.integers(2, 8 if cx.quick else 9))
+        nterms = int(rng.integers(5, 31 if cx.quick else 41))
+        alpha = (["x", "y", "z"], ["x", "z", "sz", "+", "-", "n"], ["+", "-", "n", "h"], ["z", "sz", "n"])[int(rng.integers(0, 4))]
+        cset = [1.0, -1.0, 0.5, 2.0, float(np.round(rng.normal(), 3)) or 0.3, 1, complex(0.5, -0.25)][: int(rng.integers(2, 8))]
+        jw = bool(rng.integers(0, 2)) and ("+" in alpha)
+        # a pool of partial strings that get re-used so that terms share prefixes and suffixes
+        pool = []
+        for _ in range(4):
+            k = int(rng.integers(1, min(n, 4) + 1))
+            ss = sorted(int(q) for q in rng.choice(n, size=k, replace=False))
+            pool.append([(alpha[int(rng.integers(0, len(alpha)))], q) for q in ss])
+        terms = []
+        for _ in range(nterms):
+            base_ops = list(pool[int(rng.integers(0, len(pool)))])
+            r = int(rng.integers(0, 4))
+            if r == 0 and base_ops:  # change one operator
+                q = int(rng.integers(0, len(base_ops)))
+                base_ops[q] = (alpha[int(rng.integers(0, len(alpha)))], base_ops[q][1])
+            elif r == 1:  # add an operator on a free site
+                free = [q for q in range(n) if q not in {s for _, s in base_ops}]
+                if free:
+                    base_ops.append((alpha[int(rng.integers(0, len(alpha)))], free[int(rng.integers(0, len(free)))]))
+            elif r == 2 and len(base_ops) > 1:  # drop one
+                base_ops.pop(int(rng.integers(0, len(base_ops))))
+            base_ops = [base_ops[int(q)] for q in rng.permutation(len(base_ops))]
+            terms.append((cset[int(rng.integers(0, len(cset)))], base_ops))
+        reg_of = {q: q for q in range(n)}
+        ssp, nonunit, _ = term_flags(terms, reg_of, n, jw)
+        p = dict(i=i, n=n, nterms=nterms, alphabet="".join(alpha), ncoeffs=len(cset), jw=jw, same_site_product=ssp,
+                 ssp_ratio_nonunit=nonunit)
+
+        def t(terms=terms, n=n, jw=jw, reg_of=reg_of):
+            H = SparseOperatorBuilder([(c, *ops) for c, ops in terms], hilbert_space=HilbertSpace(n), jordan_wigner=jw)
+            R = ref_matrix(terms, reg_of, n, jw)
+            e = close(H.build_dense(), R, "build_dense")
+            if e:
+                return e
+            mpo = H.build_mpo()
+            e = close(mpo.to_dense(), R, "build_mpo().to_dense()")
+            if e:
+                return e
+            if mpo.max_bond() > H.nterms + 2:
+                return f"bond dimension {mpo.max_bond()} > number of terms + 2 = {H.nterms + 2}"
+            return None
+
+        cx.check("build_mpo on a dense term set (shared prefixes / suffixes / coefficients) == reference", p, t)
